@@ -93,6 +93,14 @@ SHAPES = [
     'len([1 for r in orders for q in orders if r.amount < q.amount]) == 9001',
     'max(r.amount for r in orders) > 9001 if len(orders) > 0 else false',
     'orders[0].item == "@P1"',
+    'any((hit := r).amount == amount for r in orders) and hit.item == "@P1"',
+    'len([w for r in orders if (w := r.amount) > 9001]) > 0 and w > 9002',
+    'regex("^A") and unknown_var',
+    'regex("^A") or unknown_var',
+    'normalized("@P1") and field.nope == "x"',
+    'extract("(A)") == "A" or field.nope == "x"',
+    'contains("@P1") and regex("B$") and amount > 9001',
+    'any(r.missing == "x" for r in orders) or contains("@P1")',
     'min(amount, 9001) == max(9002, amount)',
 ]
 
